@@ -118,6 +118,10 @@ func genIP(c *corr.Ctx, odd bool) net.IP {
 	}
 }
 
+var zonePool = []string{"", "", "", "eth0", "eth1", "1"}
+
+func genZone(c *corr.Ctx) string { return zonePool[c.Rng.IntN(len(zonePool))] }
+
 var portPool = []int{0, 1, 5000, 5001, 5002, 65535, 34000}
 
 func genPort(c *corr.Ctx) int {
@@ -147,8 +151,9 @@ func genUnit(c *corr.Ctx, i int) *Scenario {
 		if c.Rng.IntN(20) == 0 {
 			port = 1 << (16 + c.Rng.IntN(40))
 		}
-		sc.Ops = append(sc.Ops, Op{K: "fill", IP: hexIP(a), Port: port})
-		sc.Ops = append(sc.Ops, Op{K: "eq", IP: hexIP(a), IP2: hexIP(b), Port: port})
+		z := genZone(c)
+		sc.Ops = append(sc.Ops, Op{K: "fill", IP: hexIP(a), Zone: z, Port: port})
+		sc.Ops = append(sc.Ops, Op{K: "eq", IP: hexIP(a), IP2: hexIP(b), Zone: z, Port: port})
 	}
 	return sc
 }
@@ -173,17 +178,22 @@ func genSrv(c *corr.Ctx, i int, odd bool) *Scenario {
 	ips, ports := genAddrSet(c, odd)
 	n := 3 + c.Rng.IntN(30)
 	now := int64(1000)
+	zones := []string{"", ""}
+	if c.Rng.IntN(3) == 0 {
+		zones = []string{"", "eth0", "eth1"}
+	}
 	for j := 0; j < n; j++ {
 		ip := ips[c.Rng.IntN(len(ips))]
 		port := ports[c.Rng.IntN(len(ports))]
+		z := zones[c.Rng.IntN(len(zones))]
 		now += int64(c.Rng.IntN(3))
 		switch k := c.Rng.IntN(10); {
 		case k < 3:
-			sc.Ops = append(sc.Ops, Op{K: "sadd", IP: hexIP(ip), Port: port, Cb: c.Rng.IntN(6)})
+			sc.Ops = append(sc.Ops, Op{K: "sadd", IP: hexIP(ip), Zone: z, Port: port, Cb: c.Rng.IntN(6)})
 		case k < 4:
-			sc.Ops = append(sc.Ops, Op{K: "srem", IP: hexIP(ip), Port: port})
+			sc.Ops = append(sc.Ops, Op{K: "srem", IP: hexIP(ip), Zone: z, Port: port})
 		case k < 9:
-			sc.Ops = append(sc.Ops, Op{K: "spkt", IP: hexIP(ip), Port: port, Len: c.Rng.IntN(1473), Now: now})
+			sc.Ops = append(sc.Ops, Op{K: "spkt", IP: hexIP(ip), Zone: z, Port: port, Len: c.Rng.IntN(1473), Now: now})
 		default:
 			sc.Ops = append(sc.Ops, Op{K: "sstat", Cb: c.Rng.IntN(6)})
 		}
@@ -199,7 +209,15 @@ func genCl(c *corr.Ctx, i int, odd bool) *Scenario {
 	if anyPort && c.Rng.IntN(4) > 0 {
 		readPort = 0
 	}
-	sc.Ops = append(sc.Ops, Op{K: "cinit", Any: anyPort, IP: hexIP(ips[c.Rng.IntN(2)]), Port: readPort})
+	zones := []string{"", ""}
+	if c.Rng.IntN(3) == 0 {
+		zones = []string{"", "eth0", "eth0", "eth1"}
+	}
+	proto := ""
+	if c.Rng.IntN(6) == 0 {
+		proto = "multicast"
+	}
+	sc.Ops = append(sc.Ops, Op{K: "cinit", Any: anyPort, Proto: proto, IP: hexIP(ips[c.Rng.IntN(2)]), Zone: zones[c.Rng.IntN(len(zones))], Port: readPort})
 	n := 2 + c.Rng.IntN(20)
 	now := int64(1000)
 	for j := 0; j < n; j++ {
@@ -209,7 +227,7 @@ func genCl(c *corr.Ctx, i int, odd bool) *Scenario {
 		}
 		port := ports[c.Rng.IntN(len(ports))]
 		now += int64(1 + c.Rng.IntN(3))
-		sc.Ops = append(sc.Ops, Op{K: "cpkt", IP: hexIP(ip), Port: port, Len: c.Rng.IntN(1473), Now: now})
+		sc.Ops = append(sc.Ops, Op{K: "cpkt", IP: hexIP(ip), Zone: zones[c.Rng.IntN(len(zones))], Port: port, Len: c.Rng.IntN(1473), Now: now})
 	}
 	return sc
 }
